@@ -869,6 +869,8 @@ class Message:
         self.encrypted_payloads = encrypted_payloads
         self.crypto = crypto
         self.iv = iv
+        # set by parse() once the integrity checksum of the encrypted payload has been verified
+        self.is_authenticated = False
         if self.crypto is not None and self.iv is None:
             self.iv = self.crypto.cipher.generate_iv()
 
@@ -949,6 +951,7 @@ class Message:
                 checksum = crypto.integrity.compute(crypto.sk_a, data[:-crypto.integrity.hash_size])
                 if checksum != data[-crypto.integrity.hash_size:]:
                     raise InvalidSyntax('CHECKSUM ERROR')
+                message.is_authenticated = True
 
                 # parse decrypted payloads and remove Payload SK
                 message.iv, decrypted_data = payload_sk.decrypt(crypto)
